@@ -3,6 +3,7 @@ CONSTANTS
   Files <- MCFiles3
   Barrier = TRUE
   SortList = TRUE
+  OpenInside = TRUE
 INVARIANT MatchesRule
 INVARIANT ExitZero
 INVARIANT JunkInvariant
